@@ -62,6 +62,22 @@ def SafeL : BL → Prop
   | .cons b _ r => Safe b ∧ SafeL r
 end
 
+/-- is this a Utf8 / LargeUtf8 builder (the value builder `build_builder` means a dictionary to have)? -/
+def B.isUtf8B : B → Bool
+  | .bytes _ ty _ _ _ => isUtf8Ty ty
+  | _ => false
+
+/-- is this an integer leaf builder (the key builder of an Arrow dictionary)? -/
+def B.isIntLeaf : B → Bool
+  | .leaf _ (.int _) _ _ => true
+  | _ => false
+
+/-- values decoded = index entries: when the value builder of a dictionary is a Utf8 / LargeUtf8 builder, the
+values it holds are exactly the strings of the index, in insertion order (`values[index[s]] = s`).  Other value
+builders (`build_builder` accepts any type, e.g. `Dictionary(Int8, Date32)` stores parsed dates) are not constrained. -/
+def DictVals (vals : B) (index : List String) : Prop :=
+  vals.isUtf8B = true → dec vals = index.map fun s => LVal.str (strBytes s)
+
 mutual
 def WFB : B → Prop
   | .null _ _ => True
@@ -79,7 +95,8 @@ def WFB : B → Prop
   | .dictionary _ idx vals index =>
     WFB idx ∧ WFB vals ∧ index.Nodup ∧
     (dec vals).length = index.length ∧
-    (∀ k ∈ dec idx, ∀ j : Int, k = .int j → 0 ≤ j ∧ j.toNat < index.length)
+    (∀ k ∈ dec idx, ∀ j : Int, k = .int j → 0 ≤ j ∧ j.toNat < index.length) ∧
+    DictVals vals index
   | .union _ fs types offs cur =>
     types.length = offs.length ∧ cur.length = fs.length ∧ WFU fs cur ∧
     (∀ to ∈ types.zip offs,
